@@ -288,4 +288,3 @@ package ext
 //@   props C09, C14
 //@   modifies rs._all
 //@   top-ensures isFresh(rs)
-
